@@ -296,6 +296,19 @@ PROPS = {
             dict(test="TestC09Prop", kind="rapid", checks={Q: 60, T: 2500}, shards=16),
         ],
     ),
+    "C10": dict(
+        pkg="c10", level="exploration",
+        technique="stateful property-based testing (rapid state machine) against a live transport with 2..4 verified reference controllers; per-connection subscription model and expected-event queues compared after every action through a synchronising request",
+        level_text=("Histories of connect (in drawn order), subscribe / unsubscribe (also on characteristics without event permission), local set and remote write (changing, non-changing, with ev in the same entry, one or two entries), close and reconnect over seven characteristics of two accessories. "
+                    "After every action each live connection performs a cheap request; the EVENT/1.0 entries that arrived before its response must equal the model's queue exactly: one entry (aid, iid, new value) per change for every other subscribed verified connection, none for the originator, unsubscribed, never-subscribed, closed or freshly reconnected connections, none for unchanged values or non-event characteristics."),
+        level_note="Trusted: refctl's event reader; the fact that hc writes notifications synchronously inside SetValue / the PUT handler, which makes the synchronising request sufficient without sleeps. ProgrammableSwitchEvent (specified to notify on equal values) is not part of the test bed. Event entries are counted, not messages (batching is allowed).",
+        rule=("rapid state machine (about 30 actions) over 5 action kinds, 2..4 controllers, 7 characteristics. Non-trivial: a history with a change while at least 2 connections are subscribed and a change after an unsubscribe or a close. Distinct by history."),
+        assumptions=["values written stay inside bounds so that the model needs no clamping"],
+        essential_classes=["event-delivered", "change-with>=2-subscribers", "change-after-unsubscribe-or-close", "subscribe-non-ev-rejected", "same-value-update", "originator-subscribed", "reconnect", "write-with-ev", "close-with-subscriptions"],
+        jobs=[
+            dict(test="TestC10Prop", kind="rapid", checks={Q: 40, T: 2500}, shards=16, steps=60),
+        ],
+    ),
 }
 
 # reasons for properties not claimed yet (kept current while the framework is being built)
